@@ -145,6 +145,11 @@ Definition env1 : list (bytes * sval) :=
     (bytes_of_string "TEN", SData (I 10));
     (bytes_of_string "h", SFunc (Some (bytes_of_string "g")) (Some [id_ "a"]) (body1 (id_ "a")));
     (bytes_of_string "g", SFunc (Some (bytes_of_string "g")) (Some [id_ "a"]) (body1 (id_ "a")));
+    (* func f(x){1}; k=f; func f(x){2} *)
+    (bytes_of_string "k", SFunc (Some (bytes_of_string "f")) (Some [id_ "x"]) (body1 (Some (NInt (tk token_INT "1") 1))));
+    (bytes_of_string "f", SFunc (Some (bytes_of_string "f")) (Some [id_ "x"]) (body1 (Some (NInt (tk token_INT "2") 2))));
+    (* func gone(x){x}; d=gone; del(gone) *)
+    (bytes_of_string "d", SFunc (Some (bytes_of_string "gone")) (Some [id_ "x"]) (body1 (id_ "x")));
     (bytes_of_string "a", SData (VArr [I 1; F 0x3fe0000000000000])) ].
 
 Definition text_of (r : option (bytes * nat)) : option (string * nat) :=
@@ -157,17 +162,23 @@ Definition save_globals_small : Prop :=
   text_of (save_globals 0 [bytes_of_string "PI"; bytes_of_string "E"] env1)
   = Some ("TEN=10
 a=[1,0.5]
+d=x=>x
+func f(x){2}
 func g(a){a}
 h=func g(a){a}
+k=x=>1
 long=""0123456789""
 z=5
-"%string, 6%nat)
+"%string, 9%nat)
   /\ text_of (save_globals 8 [bytes_of_string "PI"; bytes_of_string "E"] env1)
   = Some ("TEN=10
 a=[1,0.5]
+d=x=>x
+func f(x){2}
 func g(a){a}
+k=x=>1
 z=5
-"%string, 4%nat).
+"%string, 7%nat).
 
 Example save_globals_small_ok : save_globals_small.
 Proof. split; vm_compute; reflexivity. Qed.
